@@ -7,12 +7,14 @@ pair of listener versions, a v5 publisher using every subset of the publish prop
 import json, os
 import vlib
 from checks import codec_common as cc
+from checks import alias_common
 
 TO_CLIENT = ("publish", "puback", "pubrec", "pubrel", "pubcomp", "suback", "unsuback", "pingresp", "disconnect", "connack")
 
 
 def run(ctx):
     bindir = vlib.build_harness(["codecs", "crossver"])
+    alias_common.alias_stage(ctx, "C20")
     v4, v5, res = cc.wire_vectors(ctx)
     vecs = [r for r in v5 if r["p"]["t"] in TO_CLIENT and not (r["p"]["t"] == "connack" and r["p"].get("code", 0) != 0)]
     vp, rp = ctx.path("cross.ndjson"), ctx.path("cross_res.ndjson")
@@ -56,7 +58,7 @@ def run(ctx):
         "exhaustive": True, "failed_vectors": failed, "failed_end_to_end": e2e_bad,
     }, ["CONNACK with a failure code towards a 3.1.1 link is not in the value space: a v5-only code has no 3.1.1 counterpart and the property speaks of notifications of the routing core",
         "end-to-end runs use one QoS 1 publish per run; ordering and pacing across versions are the router properties C01/C03, which are protocol-agnostic above the codec",
-        "topic alias, message expiry and subscription identifiers are not sent end to end (the broker does not implement aliases; see DESIGN.md)"])
+        "message expiry is not modelled; topic aliases are covered by the Alias.tla stage (coverage.topic_aliases)"])
 
 
 def replay(ctx, path):
